@@ -49,6 +49,7 @@ NoPayload == [k |-> "none", m |-> NoM, rs |-> "none", scr |-> <<>>, src |-> "non
 
 NoHold == [tx |-> FALSE, fo |-> FALSE, raw |-> FALSE]
 
+Tasker == Client \cup Actor     \* who can have an operation in flight: clients, and actors inside a handler
 StrongKinds == {"addr", "owning", "sender", "caller"}
 WeakKinds   == {"waddr", "wsender", "wcaller"}
 \* D2: a Caller keeps only the waiting closure alive (caller.rs:32-46)
@@ -62,10 +63,11 @@ UnbornActor ==
    inc |-> 0, inst |-> 0, st |-> <<>>, notif |-> "armed", shared |-> FALSE,
    result |-> "none", jh |-> "none", why |-> "none", svc |-> "none",
    kids |-> <<>>, bn |-> 0, uc |-> 0, ty |-> "0",
-   sq |-> [ready |-> 0, next |-> 1, ended |-> FALSE], iscr |-> <<>>, pbseen |-> FALSE]
+   sq |-> [ready |-> 0, next |-> 1, ended |-> FALSE], iscr |-> <<>>, pbseen |-> FALSE,
+   subs |-> {}, fan |-> {}, bhold |-> {}, bph |-> "none", btgt |-> "none", bseq |-> 0]
 
 NoArg == [ty |-> "0", nh |-> "none", nh2 |-> "none"]
-IdleClient == [stage |-> "idle", n |-> 0, op |-> "none", h |-> "none", m |-> NoM, ta |-> "none", arg |-> NoArg,
+IdleClient == [stage |-> "idle", n |-> 0, op |-> "none", h |-> "none", m |-> NoM, ta |-> "none", arg |-> NoArg, nest |-> "none",
                hold |-> NoHold, dl |-> -1, last |-> [res |-> "none", pos |-> 0, inst |-> 0, a |-> "none"]]
 
 -----------------------------------------------------------------------------
@@ -77,14 +79,17 @@ LiveH(a, kinds) == (\E x \in DOMAIN hnd : hnd[x].a = a /\ hnd[x].kind \in kinds)
 
 \* the Arc of the waiting closure has a strong holder
 TxHeld(a) == \/ LiveH(a, StrongKinds)
-             \/ \E c \in Client : cli[c].ta = a /\ cli[c].hold.tx
+             \/ \E c \in Tasker : cli[c].ta = a /\ cli[c].hold.tx
+             \/ \E b \in Actor : a \in act[b].bhold
              \/ \E i \in DOMAIN tmr : tmr[i].a = a /\ tmr[i].hold.tx
 \* the Arc of the forcing closure has a strong holder
 FoHeld(a) == \/ LiveH(a, ForceKinds)
-             \/ \E c \in Client : cli[c].ta = a /\ cli[c].hold.fo
+             \/ \E c \in Tasker : cli[c].ta = a /\ cli[c].hold.fo
+             \/ \E b \in Actor : a \in act[b].bhold
              \/ \E i \in DOMAIN tmr : tmr[i].a = a /\ tmr[i].hold.fo
 \* an in-flight waiting-path submission owns a raw mpsc sender clone
-RawHeld(a) == \/ \E c \in Client : cli[c].ta = a /\ cli[c].hold.raw
+RawHeld(a) == \/ \E c \in Tasker : cli[c].ta = a /\ cli[c].hold.raw
+              \/ \E b \in Actor : act[b].bph = "flush" /\ act[b].btgt = a
               \/ \E i \in DOMAIN tmr : tmr[i].a = a /\ tmr[i].hold.raw
 ChanOpen(a) == TxHeld(a) \/ FoHeld(a) \/ RawHeld(a)
 
@@ -134,11 +139,12 @@ InitHist == [hb |-> [a \in Actor |-> <<>>], he |-> [a \in Actor |-> <<>>], cb |-
              stopAcc |-> [a \in Actor |-> FALSE], late |-> [a \in Actor |-> {}],
              oksend |-> [a \in Actor |-> {}], okcall |-> {}, errcall |-> {},
              ann |-> [a \in Actor |-> <<>>], ab |-> [a \in Actor |-> <<>>],
-             qry |-> {}, ctxr |-> {}, upr |-> {}, abt |-> {}, fires |-> {}, bcast |-> {}, regops |-> {}, upfail |-> [a \in Actor |-> FALSE], ninst |-> 0]
+             qry |-> {}, ctxr |-> {}, upr |-> {}, abt |-> {}, fires |-> {}, bcast |-> {}, regops |-> {},
+             pubs |-> <<>>, subdone |-> [T \in {"B1", "B2"} |-> {}], elig |-> [T \in {"B1", "B2"} |-> {}], coll |-> {}, upfail |-> [a \in Actor |-> FALSE], ninst |-> 0]
 
 InitReg == [ent |-> <<>>, lock |-> "free", n |-> 0]
 
-Init0 == [act |-> [a \in Actor |-> UnbornActor], hnd |-> <<>>, cli |-> [c \in Client |-> IdleClient],
+Init0 == [act |-> [a \in Actor |-> UnbornActor], hnd |-> <<>>, cli |-> [c \in Tasker |-> IdleClient],
           rsp |-> <<>>, tmr |-> <<>>, reg |-> InitReg, now |-> 0, hst |-> InitHist]
 EmptyInit ==
   /\ act = Init0.act /\ hnd = Init0.hnd /\ cli = Init0.cli /\ rsp = Init0.rsp /\ tmr = Init0.tmr
@@ -159,7 +165,8 @@ Last(res, pos, inst, a) == [res |-> res, pos |-> pos, inst |-> inst, a |-> a]
 Began(c, o, m, a, stage, hold) ==
   [cli EXCEPT ![c] = [@ EXCEPT !.n = @ + 1, !.stage = stage, !.op = o.op, !.h = o.h, !.m = m, !.ta = a, !.hold = hold]]
 Finished(C, c, last) ==
-  [C EXCEPT ![c] = [@ EXCEPT !.stage = "idle", !.ta = "none", !.hold = NoHold, !.last = last, !.dl = -1]]
+  [C EXCEPT ![c] = [@ EXCEPT !.stage = "idle", !.ta = "none", !.hold = NoHold, !.last = last, !.dl = -1,
+                             !.nest = IF @ = "run" THEN "done" ELSE @]]
 \* an operation that returns within the same step
 Instant(c, o, m, last) == Finished(Began(c, o, m, "none", "idle", NoHold), c, last)
 
@@ -410,6 +417,25 @@ JoinReturn(c) ==
 \*      point), acquires the lock, and runs its check-then-act body while holding it.  Only
 \*      from_registry keeps the write lock across an await: the debug-build ping of a fresh instance.
 RegOps == {"from_registry", "setup", "register", "replace", "unregister", "already_running"}
+\* Broker<T> is a service of its own type per topic (broker.rs:51-91); its payloads carry library-defined "scripts"
+BType(T) == "B" \o T
+IsBrokerType(ty) == ty \in {"B1", "B2"}
+ViaBroker == {"publish", "subscribe"}          \* Broker::publish / Context::publish, Context::subscribe: from_registry, then send
+BrokerPayload(op, m, who) ==
+  [k |-> "task", m |-> m, rs |-> "none", src |-> "mailbox",
+   scr |-> IF op \in {"publish", "bpublish"} THEN <<Eff("b_pub", 0, "")>>
+           ELSE IF op \in {"subscribe", "bsubscribe"} THEN <<Eff("b_sub", 0, who)>> ELSE <<Eff("b_unsub", 0, who)>>]
+\* history: what a publication must / must not reach, fixed when the publish begins (C09)
+TopicOf(ty) == ty
+HPubBegin(H, T, m) == [H EXCEPT !.pubs = (m :> [T |-> T, must |-> H.subdone[T], never |-> Actor \ H.elig[T]]) @@ @]
+HSubBegin(H, T, who) == [H EXCEPT !.elig = [@ EXCEPT ![T] = @ \cup {who}],
+                                 !.pubs = [q \in DOMAIN @ |-> IF @[q].T = T THEN [@[q] EXCEPT !.never = @ \ {who}] ELSE @[q]]]
+HSubDone(H, T, who) == [H EXCEPT !.subdone = [@ EXCEPT ![T] = @ \cup {who}]]
+HUnsubBegin(H, T, who) == [H EXCEPT !.subdone = [@ EXCEPT ![T] = @ \ {who}],
+                                   !.pubs = [q \in DOMAIN @ |-> IF @[q].T = T THEN [@[q] EXCEPT !.must = @ \ {who}] ELSE @[q]]]
+\* (an unsubscribe that overtakes a subscription still in flight does not cancel it)
+SubInFlight(who, T) == who \in Actor /\ cli[who].nest = "run" /\ cli[who].op = "subscribe" /\ cli[who].arg.ty = T
+HUnsubDone(H, T, who) == IF SubInFlight(who, T) THEN H ELSE [H EXCEPT !.elig = [@ EXCEPT ![T] = @ \ {who}]]
 RegSlot(n) == "r" \o ToString(n)
 SvcRunning(a) == IF "D1" \in Dev THEN ~act[a].shared ELSE act[a].notif = "armed"
 ServiceCfgS == <<<<Eff("yield", 0, "")>>>>
@@ -417,13 +443,14 @@ ServiceCfgP == <<Eff("yield", 0, "")>>
 
 RegIssue(c, o) ==
   LET x == o.h  needs == o.op \in {"register", "replace"} IN
-  /\ CanIssue(c) /\ o.op \in RegOps
+  /\ CanIssue(c) /\ o.op \in RegOps \cup {"publish"}
   /\ (needs => (Owns(c, x) /\ hnd[x].kind = "addr"))
   /\ cli' = [Began(c, o, Mid(c), IF needs THEN hnd[x].a ELSE "none", "reglock",
                     IF needs THEN [tx |-> TRUE, fo |-> TRUE, raw |-> FALSE] ELSE NoHold)       \* the call owns the Addr it consumed
-              EXCEPT ![c].arg = [ty |-> IF needs THEN act[hnd[x].a].ty ELSE o.ty, nh |-> o.nh, nh2 |-> o.nh2]]
+              EXCEPT ![c].arg = [ty |-> IF needs THEN act[hnd[x].a].ty ELSE IF o.op = "publish" THEN BType(o.ty) ELSE o.ty, nh |-> o.nh, nh2 |-> o.nh2]]
   /\ hnd' = IF needs THEN [y \in DOMAIN hnd \ {x} |-> hnd[y]] ELSE hnd
-  /\ UNCHANGED <<act, rsp, tmr, reg, now, hst>>
+  /\ hst' = IF o.op = "publish" THEN HPubBegin(hst, BType(o.ty), Mid(c)) ELSE hst
+  /\ UNCHANGED <<act, rsp, tmr, reg, now>>
 
 NewH(H, name, a, c) == IF name = "none" THEN H ELSE (name :> [kind |-> "addr", a |-> a, owner |-> c, polled |-> FALSE]) @@ H
 RegLockFree(c) == reg.lock = "free"
@@ -435,17 +462,24 @@ RegBody(c) ==
       Log(res, a) == [hst EXCEPT !.regops = @ \cup {<<op, T, res, a, old, IF has THEN act[old].notif = "armed" ELSE FALSE>>}]
   IN
   /\ cli[c].stage = "reglock" /\ RegLockFree(c)
-  /\ CASE op \in {"from_registry", "setup"} ->
+  /\ CASE op \in {"from_registry", "setup"} \cup ViaBroker ->
             IF has /\ SvcRunning(old)
-            THEN /\ hnd' = IF op = "setup" THEN hnd ELSE NewH(hnd, nh, old, c)
-                 /\ cli' = Finished(cli, c, Last("ok", 0, 0, old))
-                 /\ hst' = Log("hit", old)
-                 /\ UNCHANGED <<act, rsp, reg>>
+            THEN IF op \in ViaBroker
+                 THEN \* the broker is there: Addr::send of the Publish / Subscribe message in the same poll (unbounded mailbox)
+                      /\ act' = [act EXCEPT ![old] = IF @.rx = "open" THEN Enq(@, BrokerPayload(op, m, c), DEAD) ELSE @]
+                      /\ cli' = Finished(cli, c, Last(IF act[old].rx = "open" THEN "ok" ELSE "err", 0, 0, old))
+                      /\ hst' = IF op = "subscribe" THEN HSubDone(Log("hit", old), T, c) ELSE Log("hit", old)
+                      /\ UNCHANGED <<hnd, rsp, reg>>
+                 ELSE /\ hnd' = IF op = "setup" THEN hnd ELSE NewH(hnd, nh, old, c)
+                      /\ cli' = Finished(cli, c, Last("ok", 0, 0, old))
+                      /\ hst' = Log("hit", old)
+                      /\ UNCHANGED <<act, rsp, reg>>
             ELSE \* spawn a fresh Default instance, register it (dropping a dead entry), ping it under the lock
                  LET r == RegSlot(reg.n + 1) IN
                  /\ r \in Actor /\ act[r].pc = "unborn"
                  /\ act' = [act EXCEPT ![r] = Enq([UnbornActor EXCEPT !.pc = "starting", !.inst = hst.ninst + 1, !.ty = T,
-                                                                        !.sscr = ServiceCfgS, !.pscr = ServiceCfgP],
+                                                                        !.sscr = IF IsBrokerType(T) THEN <<>> ELSE ServiceCfgS,
+                                                                        !.pscr = IF IsBrokerType(T) THEN <<>> ELSE ServiceCfgP],
                                                    [k |-> "task", m |-> m, rs |-> "ping", scr |-> <<>>, src |-> "mailbox"], DEAD)]
                  /\ rsp' = (m :> [st |-> "pending", pos |-> 0, inst |-> 0, a |-> r]) @@ rsp
                  /\ reg' = [reg EXCEPT !.ent = (T :> r) @@ @, !.lock = c, !.n = @ + 1]
@@ -492,9 +526,31 @@ RegPingReturn(c) ==
   /\ rsp[m].st = "val"                        \* (a failed ping trips the crate's debug_assert: not in the alphabet)
   /\ reg' = [reg EXCEPT !.lock = "free"]
   /\ rsp' = [y \in DOMAIN rsp \ {m} |-> rsp[y]]
-  /\ hnd' = IF cli[c].op = "setup" THEN hnd ELSE NewH(hnd, cli[c].arg.nh, r, c)
-  /\ cli' = Finished(cli, c, Last("ok", 0, 0, r))
-  /\ UNCHANGED <<act, tmr, now, hst>>
+  /\ IF cli[c].op \in ViaBroker
+     THEN /\ act' = [act EXCEPT ![r] = IF @.rx = "open" THEN Enq(@, BrokerPayload(cli[c].op, m, c), DEAD) ELSE @]
+          /\ cli' = Finished(cli, c, Last(IF act[r].rx = "open" THEN "ok" ELSE "err", 0, 0, r))
+          /\ hst' = IF cli[c].op = "subscribe" THEN HSubDone(hst, cli[c].arg.ty, c) ELSE hst
+          /\ hnd' = hnd
+     ELSE /\ hnd' = IF cli[c].op = "setup" THEN hnd ELSE NewH(hnd, cli[c].arg.nh, r, c)
+          /\ cli' = Finished(cli, c, Last("ok", 0, 0, r))
+          /\ UNCHANGED <<act, hst>>
+  /\ UNCHANGED <<tmr, now>>
+
+\* Addr<Broker<T>>::publish / subscribe / unsubscribe (broker.rs:142-158): a plain send on the broker's (unbounded) mailbox
+BSubmit(c, o) ==
+  LET x == o.h  b == hnd[x].a  m == Mid(c)  T == act[b].ty
+      who == IF o.op = "bpublish" THEN "none" ELSE hnd[o.h2].a
+      open == act[b].rx = "open"
+      H0 == CASE o.op = "bpublish" -> HPubBegin(hst, T, m)
+              [] o.op = "bsubscribe" -> IF open THEN HSubDone(HSubBegin(hst, T, who), T, who) ELSE hst
+              [] o.op = "bunsubscribe" -> IF open THEN HUnsubDone(HUnsubBegin(hst, T, who), T, who) ELSE hst
+  IN
+  /\ CanIssue(c) /\ Owns(c, x) /\ o.op \in {"bpublish", "bsubscribe", "bunsubscribe"} /\ hnd[x].kind = "addr" /\ IsBrokerType(T)
+  /\ (o.op # "bpublish" => (Owns(c, o.h2) /\ hnd[o.h2].kind \in {"addr", "owning"}))
+  /\ act' = IF open THEN [act EXCEPT ![b] = Enq(@, BrokerPayload(o.op, m, who), DEAD)] ELSE act
+  /\ cli' = Instant(c, o, m, Last(IF open THEN "ok" ELSE "err", 0, 0, b))
+  /\ hst' = H0
+  /\ UNCHANGED <<hnd, rsp, tmr, reg, now>>
 
 \* try_from_registry (service.rs:120-129): try_read, no waiting
 TryFromRegistry(c, o) ==
@@ -533,7 +589,7 @@ StreamFeed(c, o) ==
 Issue(c, o) ==
   \/ Spawn(c, o) \/ SubmitForce(c, o) \/ SubmitWait(c, o) \/ AwaitBegin(c, o) \/ Query(c, o)
   \/ Convert(c, o) \/ Upgrade(c, o) \/ DropH(c, o) \/ Give(c, o) \/ Detach(c, o) \/ JoinBegin(c, o)
-  \/ ClientSleep(c, o) \/ ClientYield(c, o) \/ RegIssue(c, o) \/ TryFromRegistry(c, o) \/ StreamFeed(c, o)
+  \/ ClientSleep(c, o) \/ ClientYield(c, o) \/ RegIssue(c, o) \/ TryFromRegistry(c, o) \/ StreamFeed(c, o) \/ BSubmit(c, o)
 
 \* continuation steps of a pending operation
 ClientCont(c) == Flushed(c) \/ RespReturn(c) \/ AwaitReturn(c) \/ JoinReturn(c) \/ ClientWake(c) \/ RegBody(c) \/ RegPingReturn(c)
@@ -562,7 +618,8 @@ CurEff(a) == act[a].scr[act[a].ip]
 DropLoop(ar, pc, res, why) ==
   [ar EXCEPT !.pc = pc, !.rx = "closed", !.mq = <<>>, !.parked = <<>>, !.curp = NoPayload, !.scr = <<>>, !.ip = 0,
              !.tdl = -1, !.sdl = -1, !.result = res, !.why = why,
-             !.notif = IF @ = "armed" THEN "dropped" ELSE @, !.kids = <<>>]
+             !.notif = IF @ = "armed" THEN "dropped" ELSE @, !.kids = <<>>,
+             !.subs = {}, !.fan = {}, !.bhold = {}, !.bph = "none", !.btgt = "none"]
 \* Context::drop aborts the timer tasks (context.rs:71-77); an aborted task still owns what its future
 \* holds (an upgraded Sender during a parked send) until it is polled again and ends
 AbortTimersOf(a) == [i \in DOMAIN tmr |-> IF tmr[i].a = a /\ tmr[i].st \notin {"ended"} THEN [tmr[i] EXCEPT !.st = "aborted"] ELSE tmr[i]]
@@ -578,7 +635,10 @@ FailH(a, why, H) ==
   /\ tmr' = AbortTimersOf(a)
   /\ hst' = H
   /\ hnd' = ReleaseKids(a)
-  /\ UNCHANGED <<cli, reg, now>>
+  \* a nested operation of the handler is dropped with it (a held registry lock is released)
+  /\ cli' = IF cli[a].nest = "none" THEN cli ELSE [cli EXCEPT ![a] = [IdleClient EXCEPT !.n = cli[a].n]]
+  /\ reg' = IF reg.lock = a THEN [reg EXCEPT !.lock = "free"] ELSE reg
+  /\ now' = now
 Fail(a, why) == FailH(a, why, HAbandon(hst, a))
 
 StartedBegin(a) ==
@@ -590,7 +650,10 @@ StartedBegin(a) ==
 \* one step of the running script.  Effects that touch only the actor itself are here.
 EffEnabled(a) ==
   LET e == CurEff(a) IN
-  IF act[a].sdl >= 0 THEN now >= act[a].sdl ELSE TRUE
+  IF act[a].sdl >= 0 THEN now >= act[a].sdl
+  ELSE IF cli[a].nest = "run" THEN ClientContEnabled(a)
+  ELSE IF act[a].bph = "flush" THEN (act[act[a].btgt].rx = "closed" \/ ~IsParked(act[act[a].btgt], <<a, act[a].bseq>>))
+  ELSE TRUE
 
 CtxSubmit(a, k) ==    \* Context::stop / restart (context.rs:82-88, 299-305): upgrade the forcing Weak, enqueue
   LET ok == FoHeld(a) /\ act[a].rx = "open"
@@ -607,7 +670,7 @@ BroadcastBucket == [broadcast_unit |-> "unit", broadcast_bc |-> "bc", broadcast_
 TimerName(a, e) == e.s \o "." \o ToString(act[a].inc)    \* a restarted `started` registers afresh
 ScriptStep(a) ==
   LET e == CurEff(a) IN
-  /\ InScript(a) /\ ~ScriptDone(a)
+  /\ InScript(a) /\ ~ScriptDone(a) /\ cli[a].nest # "run"
   /\ CASE e.e = "yield" ->
             /\ act' = [act EXCEPT ![a].ip = @ + 1]
             /\ UNCHANGED <<hnd, cli, rsp, tmr, reg, now, hst>>
@@ -648,6 +711,49 @@ ScriptStep(a) ==
                                        ELSE IF Copies(b) > 0 THEN AddCopies(act[b], b) ELSE act[b]]
             /\ hst' = [hst EXCEPT !.bcast = @ \cup {<<a, act[a].bn + 1, typ, {act[a].kids[i].a : i \in targets}>>}]
             /\ UNCHANGED <<hnd, cli, rsp, tmr, reg, now>>
+       [] e.e \in ViaBroker ->       \* Context::subscribe / publish (context.rs:190-214): a nested async operation of the actor itself
+            IF cli[a].nest = "none"
+            THEN \* start: Broker::<T>::from_registry() - the lock shim's scheduling point comes first
+                 /\ cli' = [cli EXCEPT ![a] = [@ EXCEPT !.stage = "reglock", !.op = e.e, !.nest = "run", !.n = @ + 1, !.m = <<a, 2000 + cli[a].n + 1>>,
+                                                        !.arg = [ty |-> BType(ToString(e.n)), nh |-> "none", nh2 |-> "none"]]]
+                 /\ hst' = IF e.e = "publish" THEN HPubBegin(hst, BType(ToString(e.n)), <<a, 2000 + cli[a].n + 1>>) ELSE HSubBegin(hst, BType(ToString(e.n)), a)
+                 /\ UNCHANGED <<act, hnd, rsp, tmr, reg, now>>
+            ELSE \* the nested operation has returned
+                 /\ cli[a].nest = "done"
+                 /\ cli' = [cli EXCEPT ![a].nest = "none"]
+                 /\ act' = [act EXCEPT ![a].ip = @ + 1]
+                 /\ UNCHANGED <<hnd, rsp, tmr, reg, now, hst>>
+       [] e.e = "b_sub" ->            \* Handler<Subscribe> for Broker (broker.rs:125-130): one entry per context id
+            /\ act' = [act EXCEPT ![a] = [@ EXCEPT !.ip = @ + 1, !.subs = @ \cup {e.s}]]
+            /\ UNCHANGED <<hnd, cli, rsp, tmr, reg, now, hst>>
+       [] e.e = "b_unsub" ->
+            /\ act' = [act EXCEPT ![a] = [@ EXCEPT !.ip = @ + 1, !.subs = @ \ {e.s}]]
+            /\ UNCHANGED <<hnd, cli, rsp, tmr, reg, now, hst>>
+       [] e.e = "b_pub" ->            \* Handler<Publish> for Broker (broker.rs:99-121)
+            LET p == act[a].curp.m IN
+            (CASE act[a].bph = "none" ->
+                   \* upgrade every subscriber at once; the upgraded Senders live until the handler returns
+                   LET live == {x \in act[a].subs : CanUpgrade(x, "wsender")} IN
+                   /\ act' = [act EXCEPT ![a] = [@ EXCEPT !.bph = "fan", !.fan = live, !.bhold = live]]
+                   /\ hst' = [hst EXCEPT !.coll = @ \cup {<<p, act[a].subs, live, {x \in Actor : act[x].pc \notin {"unborn", "done", "failed"} /\ CanUpgrade(x, "wsender")}>>}]
+                   /\ UNCHANGED <<hnd, cli, rsp, tmr, reg, now>>
+              [] act[a].bph = "fan" /\ act[a].fan # {} ->
+                   \* next subscriber, in the (arbitrary) iteration order of the HashMap: waiting-path send of a clone
+                   \E x \in act[a].fan :
+                     /\ act' = IF act[x].rx = "open"
+                                THEN [act EXCEPT ![x] = Enq(@, [k |-> "task", m |-> p, rs |-> "none", scr |-> <<>>, src |-> "broker"], <<a, act[a].bseq + 1>>),
+                                                 ![a] = [@ EXCEPT !.bph = "flush", !.btgt = x, !.bseq = @ + 1]]
+                                ELSE [act EXCEPT ![a] = [@ EXCEPT !.fan = @ \ {x}]]          \* send error is ignored
+                     /\ hst' = IF act[x].rx = "open" THEN HAccepted(hst, x, p) ELSE hst
+                     /\ UNCHANGED <<hnd, cli, rsp, tmr, reg, now>>
+              [] act[a].bph = "flush" ->
+                   /\ act[act[a].btgt].rx = "closed" \/ ~IsParked(act[act[a].btgt], <<a, act[a].bseq>>)
+                   /\ act' = [act EXCEPT ![a] = [@ EXCEPT !.bph = "fan", !.fan = @ \ {act[a].btgt}, !.btgt = "none"]]
+                   /\ UNCHANGED <<hnd, cli, rsp, tmr, reg, now, hst>>
+              [] act[a].bph = "fan" /\ act[a].fan = {} ->
+                   \* prune (the upgraded Senders are still alive here), then the handler returns and drops them
+                   /\ act' = [act EXCEPT ![a] = [@ EXCEPT !.subs = {x \in @ : CanUpgrade(x, "wsender")}, !.bhold = {}, !.bph = "none", !.ip = @ + 1]]
+                   /\ UNCHANGED <<hnd, cli, rsp, tmr, reg, now, hst>>)
        [] e.e = "panic" -> Fail(a, "panic")
        [] e.e = "err" -> act[a].pc \in {"started", "rs_started"} /\ Fail(a, "startErr")
        [] OTHER -> FALSE
@@ -711,7 +817,7 @@ HandleBegin(a) ==
   /\ act[a].pc = "dequeued" /\ act[a].curp.k = "task" /\ act[a].curp.rs # "ping"
   /\ act' = [act EXCEPT ![a] = [@ EXCEPT !.pc = "handling", !.scr = act[a].curp.scr, !.ip = 1,
                                           !.tdl = IF act[a].tmo > 0 /\ ~act[a].stream THEN now + act[a].tmo ELSE -1]]
-  /\ hst' = [hst EXCEPT !.hb = [@ EXCEPT ![a] = Append(@, [m |-> act[a].curp.m, inc |-> act[a].inc, inst |-> act[a].inst])]]
+  /\ hst' = [hst EXCEPT !.hb = [@ EXCEPT ![a] = Append(@, [m |-> act[a].curp.m, inc |-> act[a].inc, inst |-> act[a].inst, src |-> act[a].curp.src])]]
   /\ UNCHANGED <<hnd, cli, rsp, tmr, reg, now>>
 
 \* handler returned: fold the message into the actor state, answer the call (addr.rs:114-121)
@@ -734,7 +840,9 @@ TimeoutFire(a) ==
      ELSE /\ act' = [act EXCEPT ![a] = [@ EXCEPT !.pc = "idle", !.curp = NoPayload, !.scr = <<>>, !.ip = 0, !.tdl = -1, !.sdl = -1]]
           /\ rsp' = DropResp(rsp, CurResp(act[a]))
           /\ hst' = HTimedOut(HAbandon(hst, a), a)
-          /\ UNCHANGED <<hnd, cli, tmr, reg, now>>
+          /\ cli' = IF cli[a].nest = "none" THEN cli ELSE [cli EXCEPT ![a] = [IdleClient EXCEPT !.n = cli[a].n]]
+          /\ reg' = IF reg.lock = a THEN [reg EXCEPT !.lock = "free"] ELSE reg
+          /\ UNCHANGED <<hnd, tmr, now>>
 
 \* Restart payload (restart_strategy.rs:10-37)
 RestartTaken(a) ==
@@ -793,7 +901,10 @@ Cancel(a) ==
   /\ act[a].pc \notin {"unborn", "done", "failed"}
   /\ Fail(a, "cancel")
 
+\* continuation of the actor's own nested operation (registry lock, ping of a fresh broker, ...)
+NestedCont(a) == InScript(a) /\ cli[a].nest = "run" /\ ClientCont(a)
 LoopStep(a) ==
+  \/ NestedCont(a)
   \/ StartedBegin(a) \/ ScriptStep(a) \/ StartedEnd(a) \/ Dequeue(a) \/ MailboxClosed(a) \/ StopTaken(a)
   \/ PingHandled(a) \/ HandleBegin(a) \/ HandleEnd(a) \/ TimeoutFire(a) \/ RestartTaken(a)
   \/ RestartStopped(a) \/ RestartRefresh(a) \/ RestartStarted(a) \/ StoppedEnd(a) \/ Notify(a) \/ Exit(a)
@@ -864,7 +975,7 @@ TimerCanStep(i) == tmr[i].st \in {"new", "aborted"} \/ TimerDue(i) \/ TimerFlush
 
 Deadlines == {act[a].sdl : a \in {b \in Actor : act[b].sdl >= 0}}
              \cup {act[a].tdl : a \in {b \in Actor : act[b].tdl >= 0}}
-             \cup {cli[c].dl : c \in {d \in Client : cli[d].stage = "sleep"}}
+             \cup {cli[c].dl : c \in {d \in Tasker : cli[d].stage = "sleep"}}
              \cup {tmr[i].dl : i \in {j \in DOMAIN tmr : tmr[j].st \in {"sleeping", "aborted"} /\ tmr[j].dl >= 0}}
 Pending == {d \in Deadlines : d > now}
 MinOf(S) == CHOOSE x \in S : \A y \in S : x <= y
@@ -884,11 +995,14 @@ TaskCanStepW(t, more) ==
   ELSE FALSE
 
 \* ---- run-to-block discipline of a cooperative executor
-IsYieldStep(a) == InScript(a) /\ ~ScriptDone(a) /\ CurEff(a).e = "yield"
+\* steps after which the running poll returns Pending with a self-wake: an explicit yield of a script,
+\* and the lock shim's scheduling point at the start of a nested registry operation
+IsYieldStep(a) == InScript(a) /\ ~ScriptDone(a) /\ cli[a].nest # "run"
+                  /\ (CurEff(a).e = "yield" \/ (CurEff(a).e \in ViaBroker /\ cli[a].nest = "none"))
 Pick(t)  == cur = None /\ cur' = t /\ yl' = FALSE /\ UNCHANGED sys
 RunLoop(a) == /\ cur = a /\ ~yl /\ LoopStep(a) /\ cur' = cur
-              /\ yl' = (IsYieldStep(a) /\ act'[a].pc = act[a].pc /\ act'[a].ip = act[a].ip + 1)
-RunIssue(c, o) == cur = c /\ ~yl /\ Issue(c, o) /\ cur' = cur /\ yl' = (o.op = "yield" \/ o.op \in RegOps)
+              /\ yl' = (IsYieldStep(a) /\ act'[a].pc = act[a].pc /\ (act'[a].ip = act[a].ip + 1 \/ cli'[a].nest = "run"))
+RunIssue(c, o) == cur = c /\ ~yl /\ Issue(c, o) /\ cur' = cur /\ yl' = (o.op = "yield" \/ o.op \in RegOps \cup {"publish"})
 RunCont(c) == cur = c /\ ~yl /\ ClientCont(c) /\ UNCHANGED <<cur, yl>>
 RunTimer(i) == cur = i /\ ~yl /\ TimerStep(i) /\ UNCHANGED <<cur, yl>>
 
